@@ -5,6 +5,7 @@ CONSTANT Cuts = {}
 CONSTANT SafeDepth = 1000
 CONSTANT SafeChain = 3000
 CONSTANT HeavyTransports = {}
+CONSTANT Wide = FALSE
 CONSTANT Dev = {}
 INIT TInit
 NEXT TNext
